@@ -29,7 +29,7 @@ import (
 	zz "github.com/siglens/siglens/pkg/zzverif"
 )
 
-func verifC01TsKey() string                              { return "timestamp" }
+func verifC01TsKey() string                                { return "timestamp" }
 func verifC01NoDownload(fName string, logError bool) error { return nil }
 
 // the reader interns column names in a sync.Map (unsafe): identity here
